@@ -39,7 +39,66 @@ func valueDepth() int {
 	return 2
 }
 
+// largeElementCase: collections whose elements sit at the size boundaries of their length prefix - a [short] in protocol
+// v2 (32767, 32768, 65535 bytes), an [int] from v3 (up to 70000 bytes here). The general generator keeps v2 elements
+// small so that nested collections stay below 65536 bytes; here the large element is a direct child of the top level.
+func largeElementCase(rt *rapid.T) valueCase {
+	v := gen.Version(rt)
+	if rapid.Bool().Draw(rt, "v2") {
+		v = primitive.ProtocolVersion2
+	}
+	et := rapid.SampledFrom([]datatype.DataType{datatype.Blob, datatype.Varchar, datatype.Ascii}).Draw(rt, "elementType")
+	var dt datatype.DataType
+	shape := rapid.IntRange(0, 3).Draw(rt, "shape")
+	switch shape {
+	case 0:
+		dt = datatype.NewList(et)
+	case 1:
+		dt = datatype.NewSet(et)
+	case 2:
+		dt = datatype.NewMap(datatype.Int, et)
+	default:
+		dt = datatype.NewMap(et, datatype.Int)
+	}
+	rep := gen.DrawRep(rt, dt, false, "rep")
+	rep.Iface = false
+	sizes := []int{32767, 32768, 40000, 65535}
+	if v != primitive.ProtocolVersion2 {
+		sizes = append(sizes, 65536, 70000)
+	}
+	n := rapid.IntRange(1, 3).Draw(rt, "n")
+	if rep.Kind == "array" {
+		rep.ArrLen = n
+	}
+	av := gen.AV{Elems: []gen.AV{}}
+	for i := 0; i < n; i++ {
+		size := rapid.SampledFrom(sizes).Draw(rt, fmt.Sprintf("size%d", i))
+		if i > 0 && rapid.Bool().Draw(rt, fmt.Sprintf("small%d", i)) {
+			size = rapid.IntRange(1, 20).Draw(rt, fmt.Sprintf("smallSize%d", i))
+		}
+		b := bytes.Repeat([]byte{'a'}, size) // plain ASCII: exact in every representation
+		b[0] = byte('0' + i)                 // distinct elements (sets, map keys)
+		b[size-1] = byte('x' + i)
+		big := gen.AV{Bytes: b}
+		num := gen.AV{Int: big64(int64(i))}
+		switch shape {
+		case 2:
+			av.Keys = append(av.Keys, num)
+			av.Elems = append(av.Elems, big)
+		case 3:
+			av.Keys = append(av.Keys, big)
+			av.Elems = append(av.Elems, num)
+		default:
+			av.Elems = append(av.Elems, big)
+		}
+	}
+	return valueCase{v, dt, rep, av}
+}
+
 func drawValueCase(rt *rapid.T) valueCase {
+	if rapid.IntRange(0, 15).Draw(rt, "largeElements") == 0 {
+		return largeElementCase(rt)
+	}
 	v := gen.Version(rt)
 	dt := gen.ValueType(rt, v, rapid.IntRange(0, valueDepth()).Draw(rt, "depth"), "type")
 	rep := gen.DrawRep(rt, dt, false, "rep")
@@ -177,6 +236,31 @@ func c11Property(rt *rapid.T) {
 		}
 		if want, err := datacodec.PreferredGoType(c.dt); err == nil && reflect.TypeOf(any) != want {
 			rt.Fatalf("untyped decode yields %T, documented preferred type is %v\n%s", any, want, c)
+		}
+	}
+	// the caller owns what Decode handed out: after it has overwritten the decoded values in place, decoding the same
+	// bytes again must still deliver the original value (a decoder that hands out shared state - a cached zero, a pooled
+	// buffer - fails here). The bytes are copied first: a decoded blob may legitimately share memory with the source.
+	enc2 := append([]byte(nil), enc...)
+	if len(enc) == 0 && enc != nil {
+		enc2 = []byte{}
+	}
+	scribble(dest, 0)
+	scribble(reflect.ValueOf(&any), 0)
+	dest3 := reflect.New(topDestType(c.rep))
+	if wasNull, fail := decodeInto(codec, enc2, dest3.Interface(), c.v); fail != "" || wasNull {
+		rt.Fatalf("%s wasNull=%v (second decode, after the first result was overwritten by its owner)\n%s", fail, wasNull, c)
+	}
+	if got4, err := gen.FromGo(dest3.Elem(), c.dt); err != nil || !gen.EqualAV(c.dt, c.av, got4) {
+		rt.Fatalf("after the caller overwrote an earlier decoded result in place, decoding the same bytes yields %s (%v): decoded values share state\n%s", clip200(gen.RenderAV(c.dt, got4)), err, c)
+	}
+	if gen.UntypedDecodable(c.dt) {
+		var any2 interface{}
+		if wasNull, fail := decodeInto(codec, enc2, &any2, c.v); fail != "" || wasNull {
+			rt.Fatalf("%s wasNull=%v (second untyped decode, after the first result was overwritten by its owner)\n%s", fail, wasNull, c)
+		}
+		if got5, err := gen.FromGo(reflect.ValueOf(any2), c.dt); err != nil || !gen.EqualAV(c.dt, c.av, got5) {
+			rt.Fatalf("after the caller overwrote an earlier untyped result in place, decoding the same bytes yields %s (%v): decoded values share state\n%s", clip200(gen.RenderAV(c.dt, got5)), err, c)
 		}
 	}
 	rec.Case(isComposite(c.dt) || !isZeroAV(c.av), stats.HashString(c.String()), c.String,
@@ -414,3 +498,5 @@ func TestC12VarintTable(t *testing.T) {
 }
 
 func bigOf(x int64) *big.Int { return big.NewInt(x) }
+
+func big64(x int64) *big.Int { return big.NewInt(x) }
